@@ -19,7 +19,7 @@ RULE = (
     "(3 groups of int32/string/bool/enum/message/bytes/double/sint64/empty-message/recursive-message/fixed32/"
     "Timestamp/Duration/uint64/aliased-enum/float members + non-oneof fields): construct with kwargs (0..1 member per "
     "group; low-weight rule with >=2 members of one group), set member to default / non-default, set non-oneof field, "
-    "parse spec-encoded bytes holding 0..n members in generated order into a fresh or into the current message, "
+    "parse spec-encoded bytes holding 0..n members in generated order (some of them as records of a wire type that does not fit the member: unknown fields) into a fresh or into the current message, "
     "from_dict (classmethod / instance, both casings), copy, deepcopy, pickle round trip, read-only observers. The same "
     "interpreter is also driven by a hypothesis.stateful RuleBasedStateMachine, and runs on variants: pydantic dataclasses, single-member groups, odd group / member names, hand-written classes (public field API) whose oneof members are declared interleaved. Oracle after EVERY step = reference "
     "model {group -> member | None} (last write wins): which_one_of names the model's member and value; reading any "
@@ -125,6 +125,8 @@ def op_strategy(cfg=None):
         mv.map(lambda t: {"op": "set", "member": t[0], "value": VALUES[t[0]][0]}),
         st.sampled_from(sorted(PLAIN)).flatmap(lambda k: st.tuples(st.just(k), st.one_of(st.just(PLAIN[k][0]), st.sampled_from(PLAIN[k][1])))).map(lambda t: {"op": "set_plain", "field": t[0], "value": t[1]}),
         st.tuples(st.lists(mv, max_size=5), st.booleans()).map(lambda t: {"op": "parse", "records": [list(x) for x in t[0]], "fresh": t[1]}),
+        st.tuples(st.lists(st.tuples(mv, st.sampled_from([False, False, True])), min_size=1, max_size=5), st.booleans()).map(
+            lambda t: {"op": "parse", "records": [list(x[0]) + ([True] if x[1] else []) for x in t[0]], "fresh": t[1]}),
         st.tuples(one_per_group, st.sampled_from(["class", "instance"]), st.sampled_from(["camel", "snake"])).map(
             lambda t: {"op": "from_dict", "members": [list(v) for v in t[0].values()], "form": t[1], "casing": t[2]}),
         st.sampled_from(["copy", "deepcopy", "pickle"]).map(lambda k: {"op": k}),
@@ -224,9 +226,13 @@ class Interp:
             guard("setattr_plain", setattr, self.m, self.pyn[op["field"]], copy.deepcopy(op["value"]))
         elif k == "parse":
             recs = []
-            for m, v in op["records"]:
+            for m, v, *misfit in op["records"]:
                 fi = self.mi.by_name(m)
                 wt, p = wire._enc_single(self.schema, fi, v)
+                if misfit and misfit[0]:
+                    # the member's NUMBER with a wire type that does not fit its declared type: an unknown field as far
+                    # as the group is concerned - it selects nothing and deselects nothing
+                    wt, p = (0, 7) if wt != 0 else (2, b"zz")
                 recs.append(wire.make_record(fi.number, wt, p))
             data = b"".join(r.raw for r in recs)
             if op["fresh"]:
@@ -235,7 +241,10 @@ class Interp:
             else:
                 guard("parse_into", self.m.parse, data)
             seen = {}
-            for m, v in op["records"]:
+            for m, v, *misfit in op["records"]:
+                if misfit and misfit[0]:
+                    self.misfits = getattr(self, "misfits", 0) + 1
+                    continue
                 g = self.cfg.MEMBER_GROUP[m]
                 seen[g] = seen.get(g, 0) + 1
                 fi = self.mi.by_name(m)
@@ -330,7 +339,8 @@ class Interp:
                         readable = False
                     if readable != selected:
                         out.append(("unselected_member_readable" if readable else "selected_member_unreadable", f"{m}"))
-                    on_wire = any(r.number == fi.number for r in recs)
+                    fit_wt = wire._enc_single(self.schema, fi, self.cfg.VALUES[m][1][0])[0]
+                    on_wire = any(r.number == fi.number and r.wt == fit_wt for r in recs)  # (a record of another wire type is an unknown field)
                     if on_wire != selected:
                         out.append(("wire_has_unselected_member" if on_wire else "wire_lacks_selected_member", f"{m} bytes={b.hex()[:120]}"))
                     for casing, d in dicts.items():
@@ -369,7 +379,7 @@ def _after(op, cfg=None):
     if k == "set":
         return f"set:{op['member']}:{'default' if op['value'] == VALUES[op['member']][0] else 'value'}"
     if k == "parse":
-        return f"parse:{'fresh' if op['fresh'] else 'into'}:{'+'.join(sorted({m for m, _ in op['records']})) or 'none'}"
+        return f"parse:{'fresh' if op['fresh'] else 'into'}:{'+'.join(sorted({r[0] + ('~misfit' if len(r) > 2 else '') for r in op['records']})) or 'none'}"
     if k == "from_dict":
         return f"from_dict:{op['form']}"
     if k == "observe":
